@@ -37,6 +37,7 @@ static long g_kill_at = -1;
 static long g_tear = 0;
 static int g_logfd = -1;
 static int g_reqfd = -1, g_grantfd = -1, g_id = 0;
+static __thread int t_grantfd = -1, t_id = -1;   /* per-thread participant (threads of one process), see fsgate_thread() */
 static unsigned char g_tracked[MAXFD];   /* 1 = file opened for writing under root, 2 = directory under root */
 static char *g_path[MAXFD];              /* path a tracked file descriptor was opened with */
 static __thread int in_hook = 0;
@@ -93,14 +94,17 @@ static long mutation(const char *kind, const char *path, long len) {
 
 static void turn(const char *kind, const char *path) {
     if (g_mode != 3 || g_reqfd < 0) return;
+    int id = t_id >= 0 ? t_id : g_id;
+    int grantfd = t_id >= 0 ? t_grantfd : g_grantfd;
+    if (grantfd < 0) return;    /* a thread that is not a participant runs free */
     char line[PATH_MAX + 64];
-    int n = snprintf(line, sizeof line, "%d %s %s\n", g_id, kind, path ? path : "?");
+    int n = snprintf(line, sizeof line, "%d %s %s\n", id, kind, path ? path : "?");
     if (n > 4000) n = 4000, line[n - 1] = '\n';
     raw_write(g_reqfd, line, n);
     char c;
     static ssize_t (*rr)(int, void *, size_t) = NULL;
     if (!rr) rr = dlsym(RTLD_NEXT, "read");
-    while (rr(g_grantfd, &c, 1) < 0 && errno == EINTR) {}
+    while (rr(grantfd, &c, 1) < 0 && errno == EINTR) {}
 }
 
 static void event(const char *kind, const char *path, int is_mutation) {
@@ -123,6 +127,8 @@ void fsgate_arm(const char *root, int mode, long kill_at, long tear, int logfd, 
     g_mode = mode;
 }
 void fsgate_disarm(void) { g_mode = 0; }
+/* make the calling thread participant `id` of the turn-based schedule (threads of one armed process) */
+void fsgate_thread(int id, int grantfd) { t_id = id; t_grantfd = grantfd; }
 long fsgate_count(void) { return g_count; }
 
 /* ---- open family --------------------------------------------------------------------- */
